@@ -27,7 +27,7 @@ use hcommon::{Out, Rng};
 use rten::verif::exec_trace::{self, Event};
 use rten::verif::{
     op_identity, op_if, op_shape, Graph, InPlaceInputs, Node, OpError, OpRunContext, Operator,
-    OutputList, OutputTypeList, OutputTypesContext, SubgraphOperator,
+    OutputList, OutputTypeList, OutputTypesContext, PlanOptions, SubgraphOperator,
 };
 use rten::{ModelOptions, NodeId, RunError, RunOptions, ThreadPool, Value, ValueOrView, ValueView};
 use rten_base::bit_set::BitSet;
@@ -45,7 +45,19 @@ const RULE: &str = "impl run_plan bookkeeping trace == Lean runPlan; oracle: out
 // Graph description (request line fields that depend only on the graph)
 // ---------------------------------------------------------------------------------------------
 
+#[derive(Clone)]
+struct OpD {
+    ins: Vec<Option<u32>>,
+    outs: Vec<Option<u32>>,
+    /// resolved capture ids that are not also inputs (the model's `capDeps`)
+    caps: Vec<u32>,
+    sub: bool,
+}
+
 struct GInfo {
+    /// node kinds by id: b'v', b'c', b'o' (ids missing from the graph are b'v')
+    kinds: Vec<u8>,
+    ops: HashMap<u32, OpD>,
     nodes: String,
     gcap: String,
     /// operator id -> its `output_ids()`
@@ -71,7 +83,17 @@ fn describe(g: &Graph) -> GInfo {
     let mut tab: BTreeMap<u32, String> = BTreeMap::new();
     let mut outpos = HashMap::new();
     let mut n_ops = 0;
+    let mut opsd: HashMap<u32, OpD> = HashMap::new();
+    let mut kindm: HashMap<u32, u8> = HashMap::new();
     for (id, node) in g.iter() {
+        kindm.insert(
+            id.as_u32(),
+            match node {
+                Node::Value(_) => b'v',
+                Node::Constant(_) => b'c',
+                Node::Operator(_) => b'o',
+            },
+        );
         let s = match node {
             Node::Value(_) => "v".to_string(),
             Node::Constant(_) => "c".to_string(),
@@ -83,6 +105,16 @@ fn describe(g: &Graph) -> GInfo {
                     .map(|i| i.as_u32())
                     .collect();
                 let ip: Vec<u32> = op.operator().in_place_inputs().iter().collect();
+                let ins_d: Vec<Option<u32>> = op.input_ids().iter().map(|o| o.map(|i| i.as_u32())).collect();
+                opsd.insert(
+                    id.as_u32(),
+                    OpD {
+                        caps: caps.iter().copied().filter(|c| !ins_d.contains(&Some(*c))).collect(),
+                        ins: ins_d,
+                        outs: op.output_ids().iter().map(|o| o.map(|i| i.as_u32())).collect(),
+                        sub: op.operator().as_subgraph_op().is_some(),
+                    },
+                );
                 outpos.insert(
                     id.as_u32(),
                     op.output_ids().iter().map(|o| o.map(|i| i.as_u32())).collect::<Vec<_>>(),
@@ -107,7 +139,13 @@ fn describe(g: &Graph) -> GInfo {
             ";",
         ),
     };
+    let maxid = kindm.keys().max().copied();
     GInfo {
+        kinds: match maxid {
+            None => vec![],
+            Some(m) => (0..=m).map(|i| kindm.get(&i).copied().unwrap_or(b'v')).collect(),
+        },
+        ops: opsd,
         nodes,
         gcap: ids_str(g.captures().iter().map(|i| i.as_u32())),
         outpos,
@@ -197,8 +235,76 @@ struct StepRec {
     released: Vec<u32>,
 }
 
+const SYM_P: u128 = (1u128 << 61) - 1;
+fn mix(a: u64, b: u64) -> u64 {
+    ((a as u128 * 1_000_003 + b as u128 + 12_345) % SYM_P) as u64
+}
+
+/// Symbolic naive evaluation of one top-level `run_plan` request (same algorithm as the Lean driver's
+/// `sym` request, written independently): every value is a hash of the term that defines it.
+fn sym_naive(info: &GInfo, call: &Call, n_outs: &HashMap<u32, usize>, fail: &str) -> String {
+    let inputs: BTreeSet<u32> = call.owned.iter().chain(&call.borrowed).map(|(i, _)| *i).collect();
+    let mut env: HashMap<u32, u64> = HashMap::new();
+    let look = |env: &HashMap<u32, u64>, id: u32| -> Option<u64> {
+        match info.kinds.get(id as usize) {
+            Some(b'c') => Some(mix(2, id as u64)),
+            Some(b'v') => {
+                if inputs.contains(&id) {
+                    Some(mix(1, id as u64))
+                } else {
+                    env.get(&id).copied()
+                }
+            }
+            _ => None,
+        }
+    };
+    let fail_op: Option<u32> = fail.get(1..).and_then(|x| x.parse().ok());
+    for &op in &call.plan {
+        let Some(d) = info.ops.get(&op) else { return "planerr".into() };
+        let mut h = mix(4, op as u64);
+        for i in &d.ins {
+            match i {
+                None => h = mix(h, 3),
+                Some(id) => match look(&env, *id) {
+                    Some(v) => h = mix(h, v),
+                    None => return format!("panic@{op}"),
+                },
+            }
+        }
+        if fail_op == Some(op) {
+            return if fail.starts_with('p') { format!("panic@{op}") } else { format!("err@{op}") };
+        }
+        let Some(&n) = n_outs.get(&op) else { return format!("err@{op}") };
+        if n < d.outs.len() {
+            return format!("err@{op}");
+        }
+        if d.sub {
+            for c in &d.caps {
+                h = mix(h, look(&env, *c).unwrap_or(7));
+            }
+        }
+        for (k, o) in d.outs.iter().enumerate() {
+            if let Some(id) = o {
+                env.insert(*id, mix(mix(h, 5), k as u64));
+            }
+        }
+    }
+    let mut hs = vec![];
+    for &o in &call.outputs {
+        match look(&env, o) {
+            Some(v) => hs.push(v.to_string()),
+            None => return "panic@out".into(),
+        }
+    }
+    format!("ok|{}", hs.join(","))
+}
+
 struct Line {
     depth: usize,
+    /// `sym` request/answer (top-level calls only)
+    sym: Option<(String, String)>,
+    /// violations of the `CapsWF` hypothesis observed for this (nested) call
+    capswf: Vec<String>,
     req: String,
     ans: String,
     n_inplace: usize,
@@ -271,6 +377,7 @@ fn make_line(call: &Call, info: &GInfo, nip: bool, op_panic: bool) -> Line {
         "-".to_string()
     };
     let mut lens: Vec<String> = vec![];
+    let mut n_outs: HashMap<u32, usize> = HashMap::new();
     let mut step_strs: Vec<String> = vec![];
     let (mut n_inplace, mut n_byval, mut n_released) = (0, 0, 0);
     for (i, s) in steps.iter().enumerate() {
@@ -292,6 +399,7 @@ fn make_line(call: &Call, info: &GInfo, nip: bool, op_panic: bool) -> Line {
                 .collect(),
             None => s.stored.iter().map(|(_, l)| l.to_string()).collect(),
         };
+        n_outs.insert(s.op, pos.len());
         lens.push(format!("{}:{}", s.op, pos.join(".")));
         step_strs.push(format!(
             "{}:{}:{}:{}:{}:{}",
@@ -335,7 +443,25 @@ fn make_line(call: &Call, info: &GInfo, nip: bool, op_panic: bool) -> Line {
         fail
     );
     let ans = format!("{status}|{}|{out_str}", step_strs.join(";"));
-    Line { depth: call.depth, req, ans, n_inplace, n_byval, n_released, n_steps: step_strs.len() }
+    let sym = (call.depth == 0 && !call.has_captures)
+        .then(|| (format!("sym{}", &req[3..]), sym_naive(info, call, &n_outs, &fail)));
+    // CapsWF (hypothesis of the capture theorems): capture placeholders are value nodes without a
+    // producer in this graph that are not supplied as inputs
+    let mut capswf = vec![];
+    if call.has_captures {
+        for (id, _, _) in &call.captures {
+            if info.kinds.get(*id as usize) != Some(&b'v') {
+                capswf.push(format!("capture {id} is not a value node"));
+            }
+            if call.owned.iter().chain(&call.borrowed).any(|(i, _)| i == id) {
+                capswf.push(format!("capture {id} is also supplied as an input"));
+            }
+            if info.ops.values().any(|d| d.outs.contains(&Some(*id))) {
+                capswf.push(format!("capture {id} is produced by an operator of the subgraph"));
+            }
+        }
+    }
+    Line { depth: call.depth, sym, capswf, req, ans, n_inplace, n_byval, n_released, n_steps: step_strs.len() }
 }
 
 // ---------------------------------------------------------------------------------------------
@@ -484,6 +610,8 @@ struct Case<'a> {
     root_ops: usize,
     /// description added to the note written when the run panics
     panic_info: String,
+    /// the root graph, for runs with a permuted plan (`Graph::verif_run_with_plan`)
+    root: Option<&'a Graph>,
 }
 
 #[derive(Clone)]
@@ -495,6 +623,8 @@ struct Cfg {
     mask: Vec<bool>,
     alt: bool,
     always_emit: bool,
+    /// run a random other topological order of `create_plan`'s plan (seed)
+    perm: Option<u64>,
 }
 
 struct RunRec {
@@ -512,6 +642,48 @@ impl Pools {
         // index 0: default pool of the normal run; 1..: the "other thread count" pools
         Pools { pools: [3usize, 1, 2, 5].iter().map(|&n| Arc::new(ThreadPool::with_num_threads(n))).collect() }
     }
+}
+
+/// A random topological order of `plan` (operators of `g`): an operator may run once every plan
+/// operator producing one of its dependencies (inputs and captures) has run.
+fn permute_plan(g: &Graph, plan: &[NodeId], seed: u64) -> Vec<NodeId> {
+    let mut rng = Rng::new(seed);
+    let mut producer: HashMap<NodeId, NodeId> = HashMap::new();
+    let mut deps: HashMap<NodeId, Vec<NodeId>> = HashMap::new();
+    for &op in plan {
+        if let Some(Node::Operator(n)) = g.get_node(op) {
+            for o in n.output_ids().iter().flatten() {
+                producer.insert(*o, op);
+            }
+            let mut d: Vec<NodeId> = n.input_ids().iter().flatten().copied().collect();
+            d.extend(n.capture_names().filter_map(|c| g.get_node_id(c)));
+            deps.insert(op, d);
+        }
+    }
+    let mut left: Vec<NodeId> = plan.to_vec();
+    let mut done: BTreeSet<NodeId> = BTreeSet::new();
+    let mut out = vec![];
+    while !left.is_empty() {
+        let ready: Vec<usize> = (0..left.len())
+            .filter(|&i| {
+                deps.get(&left[i]).map_or(true, |d| {
+                    d.iter().all(|v| match producer.get(v) {
+                        Some(p) => *p == left[i] || done.contains(p),
+                        None => true,
+                    })
+                })
+            })
+            .collect();
+        if ready.is_empty() {
+            out.extend(left.drain(..)); // cannot happen for a valid plan
+            break;
+        }
+        let k = ready[rng.usize_below(ready.len())];
+        let op = left.remove(k);
+        done.insert(op);
+        out.push(op);
+    }
+    out
 }
 
 fn do_run(case: &Case, cfg: &Cfg, pools: &Pools) -> RunRec {
@@ -534,7 +706,15 @@ fn do_run(case: &Case, cfg: &Cfg, pools: &Pools) -> RunRec {
     }
     exec_trace::set_never_in_place(cfg.nip);
     exec_trace::start_trace();
-    let res = hcommon::catch(|| (case.run)(cfg.alt, inputs, outs, opts));
+    let res = hcommon::catch(|| match (cfg.perm, case.root) {
+        (Some(seed), Some(root)) => {
+            let popts = PlanOptions { allow_missing_inputs: false, captures_available: false };
+            let plan = root.execution_plan(ids, outs, popts)?;
+            let plan = permute_plan(root, &plan, seed);
+            root.verif_run_with_plan(inputs, &plan, outs, Some(opts))
+        }
+        _ => (case.run)(cfg.alt, inputs, outs, opts),
+    });
     let trace = exec_trace::take_trace();
     exec_trace::set_never_in_place(false);
     std::env::remove_var("RTEN_USE_POOL");
@@ -587,6 +767,7 @@ fn run_case(case: &Case, rng: &mut Rng, pools: &Pools, out: &mut Out) {
         mask: case.mask.clone(),
         alt: false,
         always_emit: true,
+        perm: None,
     };
     cfgs.push(base.clone());
     cfgs.push(Cfg { name: "R1-never-in-place".into(), nip: true, ..base.clone() });
@@ -624,6 +805,12 @@ fn run_case(case: &Case, rng: &mut Rng, pools: &Pools, out: &mut Out) {
     if case.alt.is_some() {
         cfgs.push(Cfg { name: "R6-other-prepack".into(), alt: true, always_emit: false, ..base.clone() });
     }
+    let perm_idx = if case.root.is_some() {
+        cfgs.push(Cfg { name: "R7-permuted-plan".into(), perm: Some(rng.next_u64()), ..base.clone() });
+        Some(cfgs.len() - 1)
+    } else {
+        None
+    };
 
     let recs: Vec<RunRec> = cfgs.iter().map(|c| do_run(case, c, pools)).collect();
     let out_ids: Vec<u32> = case.outs.iter().map(|i| i.as_u32()).collect();
@@ -631,7 +818,32 @@ fn run_case(case: &Case, rng: &mut Rng, pools: &Pools, out: &mut Out) {
     // ---- oracle
     let r0 = &recs[0];
     let mut fail: Option<String> = None;
-    for (c, r) in cfgs.iter().zip(&recs).skip(1) {
+    for (ci, (c, r)) in cfgs.iter().zip(&recs).enumerate().skip(1) {
+        if Some(ci) == perm_idx {
+            // another valid order of the plan: same outputs when R0 succeeds; when an operator fails both
+            // fail, possibly at different operators (c02_error_depends_on_order)
+            let d = match (&r0.outcome, &r.outcome) {
+                (Outcome::Ok(_), _) => diff_outcome(&r0.outcome, &r.outcome, &out_ids, false),
+                // R0 failing before run_plan (input validation in Model::run / Graph::run, which the
+                // hook bypasses) says nothing about the plan
+                (_, Outcome::Ok(_)) if !r0.lines.is_empty() => {
+                    Some("R0 failed but the permuted plan succeeded".to_string())
+                }
+                _ => None,
+            };
+            out.bucket(if r.lines.first().map(|l| &l.req) != r0.lines.first().map(|l| &l.req) {
+                "perm_plan_differs"
+            } else {
+                "perm_plan_same"
+            });
+            if let Some(d) = d {
+                out.bucket("diff_R7");
+                if fail.is_none() {
+                    fail = Some(format!("permuted valid plan differs from R0 (mask {}): {d}", mask_str(&case.mask)));
+                }
+            }
+            continue;
+        }
         if let Some(d) = diff_outcome(&r0.outcome, &r.outcome, &out_ids, true) {
             out.bucket(&format!("diff_{}", c.name.split('-').next().unwrap_or("R")));
             if fail.is_none() {
@@ -726,6 +938,19 @@ fn run_case(case: &Case, rng: &mut Rng, pools: &Pools, out: &mut Out) {
             let nontrivial = l.n_inplace > 0 || l.n_released > 0 || l.n_byval > 0;
             out.case(&l.req, &l.ans, pf, nontrivial);
             out.bucket(&format!("line_depth_{}", l.depth.min(3)));
+            if ci == 0 {
+                if let Some((sreq, sans)) = &l.sym {
+                    out.case(sreq, sans, None, false);
+                    out.bucket("sym_lines");
+                }
+            }
+            for v in &l.capswf {
+                out.bucket("capswf_violation");
+                out.note(&format!("CapsWF violated in a nested run ({}): {v}", case.fam));
+            }
+            if l.depth > 0 && l.capswf.is_empty() {
+                out.bucket("capswf_checked_ok");
+            }
         }
     }
 }
@@ -1551,6 +1776,41 @@ fn family_b_case(rng: &mut Rng, pools: &Pools, out: &mut Out) {
         let mut bg = BGen { rng: &mut *rng, uid: 0 };
         bg.gen_graph(&[], 0)
     };
+    gd_case(gd, "B", None, vec![], rng, pools, out)
+}
+
+/// Family D: an id with about 255 uses — the `u8` reference counter saturates (sticky 255: never taken
+/// in place, never released) or just does not (254 uses).  `0:x  1:y  2:z  3:w`,
+/// `4: y = M(x, x, …, x)` (`n` copies), `5: z = U(x)` (can run in place), `6: w = M2(x, z)`.
+fn family_d_case(rng: &mut Rng, pools: &Pools, out: &mut Out) {
+    let n = *rng.pick(&[250usize, 252, 253, 254, 255, 256, 257, 300]);
+    let with_third = rng.chance(1, 2);
+    let mock = |ip: Vec<u32>, comm: bool| OpK::Mock(MockSpec { n_out: 1, ip, comm, fail: Fail::No });
+    let mut nodes = vec![NK::Val, NK::Val, NK::Val, NK::Val];
+    nodes.push(NK::Op { k: mock(if rng.chance(1, 2) { vec![0] } else { vec![] }, false), ins: vec![Some(0); n], outs: vec![Some(1)] });
+    nodes.push(NK::Op { k: mock(vec![0], false), ins: vec![Some(0)], outs: vec![Some(2)] });
+    let mut outs = vec![1u32, 2];
+    if with_third {
+        nodes.push(NK::Op { k: mock(vec![0], true), ins: vec![Some(0), Some(2)], outs: vec![Some(3)] });
+        outs.push(3);
+    }
+    if rng.chance(1, 4) {
+        outs.push(0);
+    }
+    let n_ops = nodes.len() - 4;
+    let gd = GD {
+        names: (0..nodes.len()).map(|i| format!("d{i}")).collect(),
+        nodes,
+        outputs: outs.clone(),
+        cond_inputs: vec![],
+        n_ops_total: n_ops,
+    };
+    let total = n + 1 + with_third as usize + outs.contains(&0) as usize;
+    let tag = if total >= 255 { "D_sticky" } else { "D_not_sticky" };
+    gd_case(gd, "D", Some(outs), vec![tag.to_string(), format!("D_uses_{total}")], rng, pools, out)
+}
+
+fn gd_case(gd: GD, fam: &'static str, force_outs: Option<Vec<u32>>, extra_tags: Vec<String>, rng: &mut Rng, pools: &Pools, out: &mut Out) {
     let g = build_graph(&gd);
     let mut infos = HashMap::new();
     collect_infos(&g, &mut infos);
@@ -1572,7 +1832,14 @@ fn family_b_case(rng: &mut Rng, pools: &Pools, out: &mut Out) {
                 }
             }
         };
-        let rq = build_request(rng, &g, &mut mk);
+        let mut rq = build_request(rng, &g, &mut mk);
+        if let Some(fo) = &force_outs {
+            rq.outputs = fo.iter().map(|o| NodeId::from_u32(*o)).collect();
+            // only the source value is supplied
+            let keep: Vec<usize> = (0..rq.inputs.len()).filter(|&i| rq.inputs[i].0.as_u32() == 0).collect();
+            rq.inputs = keep.iter().map(|&i| rq.inputs[i].clone()).collect();
+            rq.mask = keep.iter().map(|&i| rq.mask[i]).collect();
+        }
         let nin: HashMap<u32, NV> =
             rq.inputs.iter().filter_map(|(id, v)| NV::from_value(v).map(|n| (id.as_u32(), n))).collect();
         let out_ids: Vec<u32> = rq.outputs.iter().map(|o| o.as_u32()).collect();
@@ -1582,11 +1849,12 @@ fn family_b_case(rng: &mut Rng, pools: &Pools, out: &mut Out) {
             gref.run(inputs, outs, None, Some(opts))
         };
         let mut tags = rq.tags.clone();
+        tags.extend(extra_tags.iter().cloned());
         if gd.n_ops_total > infos.get(&(gref as *const Graph as usize)).map(|i| i.n_ops).unwrap_or(0) {
             tags.push("has_subgraphs".into());
         }
         let case = Case {
-            fam: "B",
+            fam,
             infos: std::mem::take(&mut infos),
             run: &run,
             in_ids: rq.inputs.iter().map(|(i, _)| *i).collect(),
@@ -1598,6 +1866,7 @@ fn family_b_case(rng: &mut Rng, pools: &Pools, out: &mut Out) {
             panic_info: String::new(),
             tags,
             root_ops: gd.nodes.iter().filter(|n| matches!(n, NK::Op { .. })).count(),
+            root: Some(gref),
         };
         run_case(&case, rng, pools, out);
         infos = case.infos;
@@ -2275,6 +2544,7 @@ fn family_a_case(rng: &mut Rng, pools: &Pools, out: &mut Out) {
             tags,
             root_ops,
             panic_info,
+            root: Some(g),
         };
         run_case(&case, rng, pools, out);
         infos = case.infos;
@@ -2583,6 +2853,7 @@ fn family_c_case(rng: &mut Rng, pools: &Pools, out: &mut Out) {
         tags,
         root_ops,
         panic_info: format!("model: {desc}"),
+        root: Some(gr),
     };
     run_case(&case, rng, pools, out);
 }
@@ -2631,6 +2902,19 @@ fn main() {
         if let Err(m) = r {
             out.bucket("harness_panic");
             out.note(&format!("case {ci} (C) panicked in the harness: {m}"));
+        }
+    }
+    let n_d = if args.thorough { 400 } else { 60 };
+    for ci in 0..n_d {
+        PROGRESS.store(ci as u64 + 1, Ordering::SeqCst);
+        let mut case_rng = Rng::new(rng.next_u64());
+        let r = hcommon::catch(|| family_d_case(&mut case_rng, &pools, &mut out));
+        exec_trace::set_never_in_place(false);
+        let _ = exec_trace::take_trace();
+        std::env::remove_var("RTEN_USE_POOL");
+        if let Err(m) = r {
+            out.bucket("harness_panic");
+            out.note(&format!("case {ci} (D) panicked in the harness: {m}"));
         }
     }
     let total = n_a + n_b;
